@@ -25,7 +25,9 @@ RULE = ('radiation: orbital/synodic phases uniform in [0,2pi) plus corners (0, 2
         '0<=variation<=mean incl. variation=0 and variation=mean; model times up to ~4 years with random '
         'reference datetimes; Held-Suarez: 1..12 sigma layers (equidistant / uneven / strongly uneven), random '
         'sigma_b, kf, ka, ks (both orders), minT, maxT, dTy, dThz, p0, random reference temperatures and random '
-        'spectral states whose top two total wavenumbers are zero; a radiation case is non-trivial when the point '
+        'spectral states whose top two total wavenumbers are zero (probes: top one or two); asserted negative controls '
+        'on every run: one equiangular_with_poles grid (12x7, drag non-finite) and vorticity at the spare top wavenumber '
+        'l = L-1 only on g16x8 and T21 (drag != -kv (zeta, delta), per-wavenumber deviations in the notes); a radiation case is non-trivial when the point '
         'set has day-side and night-side points (or is a scalar-function case with var != 0), a Held-Suarez '
         'case when levels lie on both sides of sigma_b; distinct = distinct input hashes')
 
@@ -310,11 +312,48 @@ def run(ctx: common.Ctx):
   marks.append(('probes-held-suarez', _time.time()))
   ctx.notes.append('timing [s]: ' + ', '.join(f'{b[0]}={b[1] - a[1]:.1f}' for a, b in zip(marks, marks[1:])))
 
-  # DOMAIN STATEMENT (review C, C20 findings 1-2): the drag theorems need cos_lat != 0 at every node and the wind round
-  # trip.  On a grid WITH pole nodes (equiangular_with_poles: cos_lat = 0 at both ends) the real code divides by zero;
-  # recorded here on every run (never an alarm: such grids are outside the stated domain, and no probe draws them)
-  with np.errstate(all='ignore'):
-    try:
+  # DOMAIN STATEMENTS (review C, C20 findings 1-2; review2 F, C20 N1/N2): the drag theorems need cos_lat != 0 at every
+  # node and the wind round trip.  Both boundaries of the domain are ASSERTED negative controls on every run:
+  #  * control:pole-grid-nonfinite - on a grid WITH pole nodes (equiangular_with_poles: cos_lat = 0 at both ends) the
+  #    real code divides by zero and the drag is non-finite;
+  #  * control:unclipped-drag - on a state with energy at the spare top total wavenumber l = L-1 the drag is NOT
+  #    -kv (zeta, delta): per-wavenumber deviations recorded below.
+  pole_note = control_pole_grid(ctx, hs, pe, specs, sh, cs, sc, jnp)
+  unclipped_note = control_unclipped(ctx, hs, pe, specs, sh, cs, sc, jnp)
+  marks.append(('controls', _time.time()))
+  ctx.notes.append(dict(domain_statement='drag (T20.4) is claimed on pole-free grids (cos_lat != 0 at every node: '
+                        'validated on every probe grid, key hyp-pole-free) and for states whose spare top total '
+                        'wavenumber l = L-1 is clipped (hyp-wind-roundtrip); hypotheses Homogeneous / WindRoundTrip are '
+                        'sampled on the real grid, not proved for it.  Outside this domain the real code does NOT '
+                        'satisfy drag = -kv (zeta, delta): asserted on every run by the two negative controls below',
+                        real_code_on_a_grid_with_pole_nodes=pole_note,
+                        real_code_on_unclipped_states=unclipped_note))
+
+  if not ctx.quick:
+    ctx.leanchecker(['DinoProofs.Properties.C20'])
+  return ctx.finish(RULE, 'theorems are about the Lean model Dino.Forcing with sin/cos/exp/log/pow/floor/pi '
+                    'instantiated by the real functions of Mathlib; horizontal transforms are external '
+                    '(linearity and the wind round trip are explicit hypotheses of T20.4, sampled on the real '
+                    'grid, on pole-free grids and states whose spare top wavenumber is clipped; both domain boundaries are '
+                    'asserted negative controls); cutoff_nonneg, equilibriumTemperature_ge_min (max with minT) and '
+                    'logSurfacePressureTendency_eq_zero are definitional in the model: that they describe the real code '
+                    'rests on the correspondence check, on sigma*ps/p0 > 0 (ps <= 0 gives NaN in the real code, a '
+                    'totalised log in the model); float rounding is outside the theorems (tolerance 1e-9 in the '
+                    'correspondence); the global-mean = S/4 identity is a quadrature statement and is a test only')
+
+
+# ---------------------------------------------------------------------------------------------
+
+
+def control_pole_grid(ctx, hs, pe, specs, sh, cs, sc, jnp):
+  """Negative control (asserted): on `equiangular_with_poles` (cos_lat = 0 at both end nodes) the drag of a smooth,
+  clipped state is non-finite - the side condition `cos_lat != 0` of the drag theorems is necessary on the real code."""
+  inp = dict(grid='Grid(4, 5, 12, 7, latitude_spacing=equiangular_with_poles)', layers=3,
+             state='random vorticity at 0 < l < 3 (seeded), zero divergence')
+  ctx.case(('control-pole-grid',), nontrivial=True)
+  note = None
+  with ctx.impl('control:pole-grid-exception', inp):
+    with np.errstate(all='ignore'):
       gp = sh.Grid(longitude_wavenumbers=4, total_wavenumbers=5, longitude_nodes=12, latitude_nodes=7,
                    latitude_spacing='equiangular_with_poles')
       cp = cs.CoordinateSystem(gp, sc.SigmaCoordinates.equidistant(3))
@@ -325,28 +364,79 @@ def run(ctx: common.Ctx):
                      temperature_variation=jnp.asarray(0 * vorp),
                      log_surface_pressure=jnp.zeros((1,) + gp.modal_shape))
       outp = np.asarray(hp.explicit_terms(stp).vorticity)
-      pole_note = dict(min_abs_cos_lat=float(np.abs(np.asarray(gp.cos_lat)).min()),
-                       drag_finite=bool(np.isfinite(outp).all()),
-                       drag_relerr_vs_minus_kv_vor=(float(np.abs(outp + np.asarray(hp.kv()) * vorp).max()
-                                                          / np.abs(np.asarray(hp.kv()) * vorp).max())
-                                                    if np.isfinite(outp).all() else None))
-    except Exception as e:  # pylint: disable=broad-except
-      pole_note = f'{type(e).__name__}: {str(e)[:200]}'
-  ctx.notes.append(dict(domain_statement='drag (T20.4) is claimed on pole-free grids (cos_lat != 0 at every node: '
-                        'validated on every probe grid, key hyp-pole-free) and for states whose top total wavenumber is '
-                        'clipped (hyp-wind-roundtrip); hypotheses Homogeneous / WindRoundTrip are sampled on the real '
-                        'grid, not proved for it', real_code_on_a_grid_with_pole_nodes=pole_note))
-
-  if not ctx.quick:
-    ctx.leanchecker(['DinoProofs.Properties.C20'])
-  return ctx.finish(RULE, 'theorems are about the Lean model Dino.Forcing with sin/cos/exp/log/pow/floor/pi '
-                    'instantiated by the real functions of Mathlib; horizontal transforms are external '
-                    '(linearity and the wind round trip are explicit hypotheses of T20.4, sampled on the real '
-                    'grid); float rounding is outside the theorems (tolerance 1e-9 in the correspondence); the '
-                    'global-mean = S/4 identity is a quadrature statement and is a test only')
+    min_cos = float(np.abs(np.asarray(gp.cos_lat)).min())
+    finite = bool(np.isfinite(outp).all())
+    note = dict(min_abs_cos_lat=min_cos, drag_finite=finite,
+                drag_relerr_vs_minus_kv_vor=(float(np.abs(outp + np.asarray(hp.kv()) * vorp).max()
+                                                   / np.abs(np.asarray(hp.kv()) * vorp).max()) if finite else None))
+    ctx.expect(min_cos == 0.0, 'control:pole-grid-cos-lat',
+               f'negative control: equiangular_with_poles was expected to have cos_lat = 0 at its end nodes; '
+               f'min |cos_lat| = {min_cos}', inp)
+    ctx.expect(not finite, 'control:pole-grid-nonfinite',
+               'negative control: the drag on a grid with pole nodes (cos_lat = 0) was expected to be NON-finite '
+               '(division by cos_lat**2); it is finite, so the stated domain restriction "pole-free grids" of the drag '
+               'theorems no longer describes the real code', inp)
+    ctx.dist['control-pole-grid'] += 1
+  return note
 
 
-# ---------------------------------------------------------------------------------------------
+def control_unclipped(ctx, hs, pe, specs, sh, cs, sc, jnp):
+  """Negative control (asserted): states with energy at the spare top total wavenumber l = L-1.  The drag is then not
+  -kv (zeta, delta): curl_cos_lat/div_cos_lat clip l = L-1 (deviation exactly 1 there), the division by cos_lat**2 of a
+  wind that is not band-limited spreads the defect to l = L-3, L-5, ... of the same field and couples vorticity into
+  the divergence tendency at l = L-2, L-4, ...  Returns the per-wavenumber deviations (relative to max |kv zeta| on the
+  drag level) for the evidence notes."""
+  rng = ctx.rng
+  notes = {}
+  for gname in ('g16x8', 'T21'):
+    inp = dict(grid=gname, layers=4, state='vorticity at the top total wavenumber l = L-1 only (seeded), zero divergence')
+    ctx.case(('control-unclipped', gname), nontrivial=True)
+    with ctx.impl('control:unclipped-exception', inp):
+      grid = _grid(sh, gname)
+      coords = cs.CoordinateSystem(grid, sc.SigmaCoordinates.equidistant(4))
+      h = hs.HeldSuarezForcing(coords, specs, np.full(4, 250.0))
+      ls = np.asarray(grid.modal_axes[1])
+      L = grid.total_wavenumbers
+      mask = np.asarray(grid.mask)
+      kv = np.asarray(h.kv())
+      k = int(np.argmax(kv.ravel()))                    # the lowest level: kv > 0
+
+      def dev(vor, div):
+        st = pe.State(vorticity=jnp.asarray(vor), divergence=jnp.asarray(div),
+                      temperature_variation=jnp.zeros(coords.modal_shape),
+                      log_surface_pressure=jnp.zeros((1,) + grid.modal_shape))
+        out = h.explicit_terms(st)
+        ev = np.abs(np.asarray(out.vorticity) + kv * vor)[k]
+        ed = np.abs(np.asarray(out.divergence) + kv * div)[k]
+        sc_ = max(np.abs(kv[k] * vor[k]).max(), np.abs(kv[k] * div[k]).max())
+        return ([float((ev * (ls == l)).max() / sc_) for l in range(L)],
+                [float((ed * (ls == l)).max() / sc_) for l in range(L)])
+
+      vs = 1e-5
+      top = rng.standard_normal(coords.modal_shape) * mask * (ls == L - 1) * vs
+      dv, dd = dev(top, 0 * top)
+      full_v = rng.standard_normal(coords.modal_shape) * mask * (ls > 0) * vs
+      full_d = rng.standard_normal(coords.modal_shape) * mask * (ls > 0) * vs * 0.1
+      fv, fd = dev(full_v, full_d)
+      clip_v, clip_d = full_v * (ls < L - 1), full_d * (ls < L - 1)
+      cv, cd = dev(clip_v, clip_d)
+      notes[gname] = dict(
+          L=int(L), kv_level=float(kv.ravel()[k]),
+          top_only_vorticity=dict(
+              vorticity_dev={f'l=L-{j}': dv[L - j] for j in (1, 2, 3, 4, 5) if L - j >= 0},
+              divergence_dev={f'l=L-{j}': dd[L - j] for j in (1, 2, 3, 4, 5) if L - j >= 0}),
+          full_random_state=dict(max_dev_at_top=max(fv[L - 1], fd[L - 1]),
+                                 max_dev_below_top=max(max(fv[:L - 1]), max(fd[:L - 1]))),
+          same_state_clipped=dict(max_dev=max(max(cv), max(cd))))
+      ctx.expect(dv[L - 1] > 0.5 and dv[L - 3] > 1e-3 and dd[L - 2] > 1e-3, 'control:unclipped-drag',
+                 'negative control: for a state with vorticity at the spare top wavenumber l = L-1 the drag was expected '
+                 f'to deviate from -kv (zeta, delta): deviation {dv[L - 1]:.3g} at L-1, {dv[L - 3]:.3g} at L-3, '
+                 f'divergence leak {dd[L - 2]:.3g} at L-2 (relative to max |kv zeta|)', inp)
+      ctx.expect(max(max(cv), max(cd)) <= 1e-9, 'drag-clipped-control-state',
+                 f'the same random state with l = L-1 clipped does not satisfy drag = -kv (zeta, delta): '
+                 f'relative deviation {max(max(cv), max(cd)):.3g}', dict(inp, state='full random state, l = L-1 clipped'))
+      ctx.dist['control-unclipped'] += 1
+  return notes
 
 
 def probes_radiation(ctx, rad, specs, sh, cs, sc, jnp, units, grid_names):
